@@ -540,7 +540,7 @@ fn main() {
     "scores are only required to order the options (score desc, then text asc); the score formula is undocumented, so the exact option SET is not judged against a doc_freq ranking (reported as counters nonfuzzy_equals_top_by_doc_freq / nonfuzzy_differs_from_top_by_doc_freq only)".into(),
     "cross-layout comparison tolerates relative score differences of 1e-4 and reorderings/substitutions among options whose scores tie within that tolerance (f32 summation order)".into(),
   ];
-  let n = ctx.n(300, 20_000);
+  let n = ctx.n(300, 100_000);
   let quick = ctx.quick();
   // ---------------- directed minimal corpora (deterministic; same oracle)
   ctx.run_cases("directed", 1, |_rng: &mut Rng, l: &mut Local, scratch| {
